@@ -14,6 +14,7 @@ const (
 	OpCalls    = "calls"
 	OpReset    = "reset"
 	OpResetAll = "resetall"
+	OpReread   = "reread" // look again at the task's latest snapshot of a method
 )
 
 // Callback behaviours.
@@ -140,6 +141,9 @@ func (g *planGen) op(depth int) *Op {
 	case r >= 1000-g.pf.ResetPM-g.pf.ReadPM:
 		o.Kind = OpCalls
 		o.Method = c.methods[g.tp.Int(len(c.methods))].Name
+		if g.tp.Int(4) == 3 {
+			o.Kind = OpReread
+		}
 		return o
 	}
 	o.Kind = OpCall
@@ -215,6 +219,8 @@ func (o *Op) String() string {
 		return s
 	case OpCalls:
 		return o.Method + "Calls()"
+	case OpReread:
+		return "reread(" + o.Method + "Calls)"
 	case OpReset:
 		return "Reset" + o.Method + "Calls()"
 	case OpResetAll:
